@@ -380,7 +380,9 @@ def mk(e, lo, hi):
 
 
 class SymInt(object):
-    __slots__ = ("e", "lo", "hi")
+    # vals: optional tuple of the only values the term can take (set for
+    # 2 ** x); lets MonoFloat compare two monotone floats without forking
+    __slots__ = ("e", "lo", "hi", "vals")
 
     def __init__(self, e, lo, hi):
         self.e, self.lo, self.hi = e, lo, hi
@@ -510,7 +512,10 @@ class SymInt(object):
 
     def __rpow__(self, o):
         if o == 2 and self.lo >= 0 and self.hi < 62:
-            return mk(bv(1) << self.e, 1 << self.lo, 1 << self.hi)
+            r = mk(bv(1) << self.e, 1 << self.lo, 1 << self.hi)
+            if isinstance(r, SymInt):
+                r.vals = tuple(1 << k for k in range(self.lo, self.hi + 1))
+            return r
         return o ** int(self)
 
     # bitwise ---------------------------------------------------------------
@@ -741,6 +746,17 @@ def sx_isnot(a, b):
     return not sx_is(a, b)
 
 
+def _conj(a, b):
+    """a and b for python bools / SymBool, without forking"""
+    if a is False or b is False:
+        return False
+    if a is True:
+        return b
+    if b is True:
+        return a
+    return SymBool(z3.And(a.e, b.e))
+
+
 class MonoFloat(object):
     """float-valued monotone non-decreasing function f of one symbolic integer
     x (f is a python callable on concrete ints).  Comparisons against concrete
@@ -763,14 +779,43 @@ class MonoFloat(object):
                 lo = mid + 1
         return lo
 
+    def _cmp2(self, o, strict):
+        """self > o (strict) / self >= o for another MonoFloat.  When one of
+        the two integers is known to take few values only (SymInt.vals, e.g.
+        2 ** rwt) the comparison is the exact formula
+        OR_v (x == v and other <rel> f(v)) - no fork; otherwise both sides
+        are concretised (as before)."""
+        va = getattr(self.x, 'vals', None)
+        vb = getattr(o.x, 'vals', None)
+        terms = []
+        if va is not None and len(va) <= 64:
+            for v in va:
+                c = self.f(v)
+                rel = (o < c) if strict else (o <= c)
+                terms.append(_conj(self.x == v, rel))
+        elif vb is not None and len(vb) <= 64:
+            for v in vb:
+                c = o.f(v)
+                rel = (self > c) if strict else (self >= c)
+                terms.append(_conj(o.x == v, rel))
+        else:
+            return (float(self) > float(o)) if strict \
+                else (float(self) >= float(o))
+        if any(t is True for t in terms):
+            return True
+        terms = [t.e for t in terms if t is not False]
+        if not terms:
+            return False
+        return SymBool(z3.Or(*terms))
+
     def __gt__(self, o):
         if isinstance(o, MonoFloat):
-            return float(self) > float(o)
+            return self._cmp2(o, True)
         return self.x >= self._thr(lambda v: v > o)
 
     def __ge__(self, o):
         if isinstance(o, MonoFloat):
-            return float(self) >= float(o)
+            return self._cmp2(o, False)
         return self.x >= self._thr(lambda v: v >= o)
 
     def __lt__(self, o):
